@@ -207,6 +207,63 @@ struct PidSim
         return N[ctype][mode];
     }
 
+    // ---- independent evaluation of the fuzzy gain schedule: base gains + weighted mean of the consequents of the
+    // active rules (memberships through the library's generic dispatcher a_mf, operators and defuzzifier re-derived)
+    static double ref_opr(unsigned o, double a, double b)
+    {
+        switch (o)
+        {
+        default:
+        case A_PID_FUZZY_EQU: return std::sqrt(a * b) * std::sqrt(1 - (1 - a) * (1 - b));
+        case A_PID_FUZZY_CAP: return a < b ? a : b;
+        case A_PID_FUZZY_CAP_ALGEBRA: return a * b;
+        case A_PID_FUZZY_CAP_BOUNDED: return a + b - 1 > 0 ? a + b - 1 : 0;
+        case A_PID_FUZZY_CUP: return a > b ? a : b;
+        case A_PID_FUZZY_CUP_ALGEBRA: return a + b - a * b;
+        case A_PID_FUZZY_CUP_BOUNDED: return a + b < 1 ? a + b : 1;
+        }
+    }
+    static size_t mf_params(int type)
+    {
+        switch (type) { case A_MF_GAUSS: case A_MF_SIG: case A_MF_LINS: case A_MF_LINZ: case A_MF_S: case A_MF_Z: return 2; case A_MF_GBELL: case A_MF_TRI: return 3; default: return 4; }
+    }
+    void ref_memberships(double x, double const *tab, std::vector<double> &mu)
+    {
+        mu.assign(order, 0.0);
+        for (unsigned i = 0; i < order; ++i)
+        {
+            int const type = (int)*tab++;
+            mu[i] = a_mf((unsigned)type, x, tab);
+            tab += mf_params(type);
+        }
+    }
+    // expected (kp, ki, kd) the fuzzy step must leave in ctx->pid; `amb` is set when a membership sits at the
+    // activation threshold or the firing strength is so small that a reference would be ill-conditioned
+    void ref_fuzzy_gains(double e, double ec, double g[3], bool &amb)
+    {
+        std::vector<double> me_, mec_;
+        ref_memberships(e, me, me_); ref_memberships(ec, mec, mec_);
+        amb = false;
+        long double sw = 0, skp = 0, ski = 0, skd = 0;
+        size_t ae = 0, aec = 0;
+        for (unsigned i = 0; i < order; ++i) { if (me_[i] > 0 && me_[i] < 1e-12) amb = true; if (me_[i] > DBL_EPSILON) ++ae; }
+        for (unsigned i = 0; i < order; ++i) { if (mec_[i] > 0 && mec_[i] < 1e-12) amb = true; if (mec_[i] > DBL_EPSILON) ++aec; }
+        if (ae && aec)
+            for (unsigned i = 0; i < order; ++i)
+                for (unsigned j = 0; j < order; ++j)
+                {
+                    if (!(me_[i] > DBL_EPSILON) || !(mec_[j] > DBL_EPSILON)) continue;
+                    long double const w = ref_opr(opr, me_[i], mec_[j]);
+                    sw += w; skp += w * mkp[i * order + j]; ski += w * mki[i * order + j]; skd += w * mkd[i * order + j];
+                }
+        if (ae > nfuzz || aec > nfuzz) amb = true; // would overrun the scratch buffer: excluded by construction, never expected
+        if (sw > 0 && sw < 1e-9) amb = true;
+        g[0] = kp; g[1] = ki; g[2] = kd;
+        if (sw > 0) { g[0] = (double)(kp + skp / sw); g[1] = (double)(ki + ski / sw); g[2] = (double)(kd + skd / sw); }
+        else if (ae && aec) c.st.add("probe.fuzzy_zero_total_firing_strength");
+        if (!ae || !aec) c.st.add("probe.fuzzy_no_set_active");
+    }
+
     // ---- one simulated sample
     bool sample()
     {
@@ -231,8 +288,22 @@ struct PidSim
         Unit &m = U[0];
         a_pid *pd = P(m);
         a_pid const before = *pd;
+        double fz_want[3] = {0, 0, 0}; bool fz_amb = true;
+        if (ctype == 1) { double const e0 = setp - delivered; ref_fuzzy_gains(e0, e0 - before.err, fz_want, fz_amb); }
         double const out = step_unit(m, setp, delivered);
         ++c.steps;
+        if (ctype == 1 && !fz_amb)
+        { // the gains the inference leaves behind: base gains + weighted mean of the active rules' consequents
+            double const got[3] = {pd->kp, pd->ki, pd->kd};
+            static char const *const GN[3] = {"kp", "ki", "kd"};
+            double const span[3] = {4.0, 0.5, 1.0}; // magnitude of the consequent tables
+            for (int k = 0; k < 3; ++k)
+            {
+                double const tol = 1e-9 * (std::fabs(fz_want[k]) + span[k]);
+                if (!(std::fabs(got[k] - fz_want[k]) <= tol)) return c.fail("fuzzy-gain-schedule-wrong", name, "%s after the step is %.17g; base gain plus the weighted mean of the active rules' consequents is %.17g (e=%.17g ec=%.17g operator %u order %u)", GN[k], got[k], fz_want[k], setp - delivered, (setp - delivered) - before.err, opr, order);
+            }
+            c.st.add("probe.fuzzy_gain_schedule_checked");
+        }
         // (1) limits and finiteness, every controller type, every mode
         if (!(out >= pd->outmin && out <= pd->outmax)) return c.fail("output-outside-limits", name, "output %.17g not within [%.17g, %.17g]", out, pd->outmin, pd->outmax);
         if (out != pd->out) return c.fail("returned-output-differs-from-state", name, "returned %.17g but the stored output is %.17g", out, pd->out);
